@@ -50,6 +50,19 @@ def lit_features(e):
         raw_nl = any(c in ("LF", "CR") and (i == 0 or body[i - 1] != "BS") for i, c in enumerate(body))
         if raw_nl:
             feats.append("raw newline admitted after an escape")
+        # `\z` directly followed by an escape the rewrite considers unnecessary (`"\z\ "`): dropping the backslash
+        # makes the character part of the whitespace that \z skips
+        def z_then_escape(i):
+            # body[i] = BS, body[i+1] = z: skip the whitespace \z skips; is the next thing another backslash?
+            j = i + 2
+            while j < len(body) and body[j] in ("SP", "LF", "CR"):
+                j += 1
+            return j < len(body) and body[j] == "BS"
+        if any(c == "BS" and i + 1 < len(body) and body[i + 1] == "z" and (i == 0 or body[i - 1] != "BS") and z_then_escape(i) for i, c in enumerate(body)):
+            feats.append("\\z followed by an escape")
+        escs = sorted(set(body[i + 1] for i, c in enumerate(body[:-1]) if c == "BS" and body[i + 1] in ("u", "x") and (i == 0 or body[i - 1] != "BS")))
+        if escs:
+            feats.append("escapes:" + "".join(escs))
     else:
         feats.append(e.get("syntax", ""))
     return ",".join(feats)
@@ -94,6 +107,24 @@ def stmt_tag(case, events, i):
     if devs:
         tag += ";devs=" + ",".join(devs)
     return tag
+
+
+_FAMILY = {"oscillation": "nofix", "late_convergence": "nofix", "not_a_fixpoint": "nofix"}
+_SLOT_RE = re.compile(r"^(trivia|layout)\|([a-z_0-9]+)\|((?:line|block|long|ownline|ownlinec|mlmixed)@[^|;]*\|[^|;]*)(?:[;|]|$)")
+
+
+def slot_prefix(sig):
+    """(source, verdict family, 'kind@prev|next') of a signature that carries exactly one comment slot, else None."""
+    m = _SLOT_RE.match(sig)
+    if not m:
+        return None
+    rest = sig[m.end(3):]
+    # a second slot follows directly after ';' only in signatures of two-comment cases
+    if re.match(r";(?:line|block|long|ownline|ownlinec|mlmixed)@", rest):
+        return None
+    what = m.group(2)
+    what = _FAMILY.get(what, "nofix" if what.startswith("second_pass") else what)
+    return (m.group(1), what, m.group(3))
 
 
 def single_comment_variants(pid, what, source, case, events, i=0, opts_tag=""):
